@@ -119,7 +119,7 @@ def gen_cases(rng, tier):
         for _ in range(20):
             cases.append({"kind": "serial", "seed": rng.randrange(2**32), "n": 5, "max_inputs": 10})
     else:
-        for i in range(180):
+        for i in range(160):
             w = 1 if i % 10 == 0 else [2, 3, 8][i % 3]
             inputs = rng.choice(["str", "str", "path", "member", "member", "dstore", "items", "values"])
             entry = "as_completed" if inputs == "values" else ("apply_to" if inputs == "items" else rng.choice(["apply_to", "apply_to", "as_completed"]))
